@@ -1,6 +1,6 @@
 //! Channel source under the baton scheduler (C04).
-//! Case line:  <bound|-1> <ndispatch> | prog1;prog2;... | schedule     progs: s (send next value) c (clone) x (drop one sender)
-//! Values sent by thread t are t*100+k. Output: executed steps `tid:yieldid`, M<v>, CLOSED, RM, FULL<t>, DISC<t>.
+//! Case line:  <bound|-1> <ndispatch> | prog1;prog2;... | schedule     progs: s (send / try_send next value) b (blocking SyncSender::send) c (clone) x (drop one sender)
+//! Values sent by thread t are t*100+k. Output: executed steps `tid:yieldid`, M<v>, CLOSED, RM, FULL<t>, DISC<t>, OK<t> (a blocking send returned Ok); HANG: threads left blocked.
 use crate::sched::{yield_here, Sched, StepResult, Status};
 use calloop::channel::{channel, sync_channel, Event, Sender, SyncSender};
 use calloop::EventLoop;
@@ -49,6 +49,13 @@ pub fn do_step(i: usize, log: &Log, sched: &Sched) -> StepResult {
         StepResult::Ran(id) => log.lock().unwrap().insert(at, format!("{}:{}", i, id)),
         StepResult::BlockedNow(id) => log.lock().unwrap().insert(at, format!("{}:{}:blocked", i, id)),
         StepResult::Finished | StepResult::StillBlocked => {}
+    }
+    // a thread blocked in a native call (a full sync channel) may have been released by this step: wait until it has
+    // reached its next yield point, so that still only one thread runs at a time
+    for j in sched.blocked_threads() {
+        if j != i {
+            sched.refresh_blocked(j);
+        }
     }
     r
 }
@@ -129,6 +136,17 @@ fn run_case(line: &str) -> String {
                             },
                             None => {}
                         }
+                    }
+                    'b' => {
+                        // SyncSender::send: blocks while the queue is full
+                        let v = tid * 100 + k;
+                        k += 1;
+                        let r = match senders.first() {
+                            Some(AnySender::U(s)) => s.send(v).is_ok(),
+                            Some(AnySender::S(s)) => s.send(v).is_ok(),
+                            None => true,
+                        };
+                        log.lock().unwrap().push(format!("{}{}", if r { "OK" } else { "DISC" }, tid));
                     }
                     'c' => {
                         if !senders.is_empty() {
